@@ -28,6 +28,7 @@ from ..paths import calls_in, function_paths
 from ..pipelinerules import (chain_rule, depth_rule, drain_rule, fault_rule, flushres_rule, order_rule, src_rule,
                              stallpair_rule)
 from ..report import Ctx
+from ..stagespec import datapath_rule
 from ..rvnf import ARF_ATOMS, Extractor, Unrecognised, _single_return, behavior_cases, behavior_net, control_signals, pipeline_cases
 from .c01 import ISA, OUT_OF_SCOPE, riscv_map
 
@@ -139,71 +140,8 @@ def split_rule(ctx: Ctx, imap: dict, rid: str = "R02.split", interlock_only: boo
 
 def mux_rule(ctx: Ctx) -> None:
     m = ctx.model
-    r = ctx.rule("R02.mux", "stage multiplexers / adders / redirect conditions are what the composition assumes")
-
-    def has(f, frag: str) -> bool:
-        return frag in " ".join(ast.unparse(f.node).split())
-
-    ex = m.method("ExecuteStage", "behavior", own=True)
-    r.check(has(ex, "alu_in_1 = None if pipeline_register.control_unit_signals.alu_src_1 is None else "
-                    "pipeline_register.register_read_data_1 if pipeline_register.control_unit_signals.alu_src_1 else "
-                    "pipeline_register.address_of_instruction"), "EX|alu_in_1", ex.loc(),
-            "EX: ALU input 1 is no longer {None: None, True: read data 1, False: instruction address}")
-    r.check(has(ex, "alu_in_2 = pipeline_register.imm if pipeline_register.control_unit_signals.alu_src_2 else "
-                    "pipeline_register.register_read_data_2"), "EX|alu_in_2", ex.loc(),
-            "EX: ALU input 2 is no longer imm if alu_src_2 else read data 2")
-    r.check(has(ex, "pipeline_register.instruction.alu_compute(alu_in_1=alu_in_1, alu_in_2=alu_in_2)"), "EX|alu", ex.loc(),
-            "EX does not call alu_compute(alu_in_1, alu_in_2)")
-    r.check(has(ex, "pc_plus_imm = pipeline_register.imm + pipeline_register.address_of_instruction if"), "EX|pc_plus_imm", ex.loc(),
-            "EX: pc_plus_imm is no longer imm + address_of_instruction")
-    r.check(has(ex, "result=result") and has(ex, "comparison=branch_taken") and has(ex, "pc_plus_imm=pc_plus_imm")
-            and has(ex, "register_read_data_2=pipeline_register.register_read_data_2") and has(ex, "imm=pipeline_register.imm")
-            and has(ex, "write_register=pipeline_register.write_register"), "EX|latch", ex.loc(), "EX latch no longer forwards result/comparison/pc_plus_imm/data2/imm/write_register")
-    mem = m.method("MemoryAccessStage", "behavior", own=True)
-    r.check(has(mem, "memory_address = pipeline_register.result") and has(mem, "memory_write_data = pipeline_register.register_read_data_2")
-            and has(mem, "pipeline_register.instruction.memory_access(memory_address=memory_address, memory_write_data=memory_write_data, architectural_state=state)"),
-            "MEM|access", mem.loc(), "MEM: memory_access is no longer called with (ALU result, read data 2)")
-    r.check(has(mem, "comparison_or_jump = pipeline_register.control_unit_signals.jump or pipeline_register.comparison")
-            and has(mem, "incorrect_branch_prediction = pipeline_register.control_unit_signals.branch and comparison_or_jump != pipeline_register.branch_prediction")
-            and has(mem, "if incorrect_branch_prediction or pipeline_register.control_unit_signals.jump:"), "MEM|redirect", mem.loc(),
-            "MEM: the taken-branch / jump redirect condition changed")
-    r.check(has(mem, "if flush_signal is not None: if isinstance(pipeline_register.instruction, BTypeInstruction): "
-                     "state.performance_metrics.branch_count += 1 elif isinstance(pipeline_register.instruction, JAL): "
-                     "state.performance_metrics.procedure_count += 1"), "MEM|counters", mem.loc(),
-            "MEM: branch_count / procedure_count are no longer counted exactly on a redirect of a B-type / JAL")
-    r.check(has(mem, "memory_read_data=memory_read_data") and has(mem, "result=pipeline_register.result") and has(mem, "imm=pipeline_register.imm")
-            and has(mem, "pc_plus_instruction_length=pipeline_register.pc_plus_instruction_length")
-            and has(mem, "write_register=pipeline_register.write_register") and has(mem, "exit_code=pipeline_register.exit_code"),
-            "MEM|latch", mem.loc(), "MEM latch no longer forwards read data / result / imm / pc+4 / write_register / exit_code")
-    wb = m.method("RegisterWritebackStage", "behavior", own=True)
-    mux = {0: "pc_plus_instruction_length", 1: "memory_read_data", 2: "result", 3: "imm"}
-    got = {}
-    for n in ast.walk(wb.node):
-        if isinstance(n, ast.If) and isinstance(n.test, ast.Compare) and ast.unparse(n.test.left) == "wb_src" and len(n.body) == 1 \
-                and isinstance(n.body[0], ast.Assign) and ast.unparse(n.body[0].targets[0]) == "register_write_data":
-            k = n.test.comparators[0]
-            if isinstance(k, ast.Constant):
-                v = n.body[0].value
-                got[k.value] = v.attr if isinstance(v, ast.Attribute) else ast.unparse(v)
-    r.check(got == mux, "WB|source-mux", wb.loc(), f"WB source mux is {got}, documented {mux}")
-    r.check(has(wb, "wb_src = pipeline_register.control_unit_signals.wb_src") and
-            has(wb, "pipeline_register.instruction.write_back(write_register=pipeline_register.write_register, "
-                    "register_write_data=register_write_data, architectural_state=state)"), "WB|write_back", wb.loc(),
-            "WB no longer calls write_back(write_register, selected data)")
-    r.check(has(wb, "if pipeline_register.exit_code is not None:") and has(wb, "state.exit_code = pipeline_register.exit_code"), "WB|exit", wb.loc(),
-            "WB no longer commits the exit code")
-    idf = m.method("InstructionDecodeStage", "behavior", own=True)
-    r.check(has(idf, "register_read_addr_1, register_read_addr_2, register_read_data_1, register_read_data_2, imm = "
-                     "pipeline_register.instruction.access_register_file(architectural_state=state)")
-            and has(idf, "write_register = pipeline_register.instruction.get_write_register()")
-            and has(idf, "register_read_data_1=register_read_data_1") and has(idf, "register_read_data_2=register_read_data_2")
-            and has(idf, "imm=imm") and has(idf, "write_register=write_register"), "ID|plumbing", idf.loc(),
-            "ID no longer latches access_register_file()'s results and get_write_register()")
-    iff = m.method("InstructionFetchStage", "behavior", own=True)
-    r.check(has(iff, "address_of_instruction = state.program_counter") and has(iff, "state.program_counter += instruction.length")
-            and has(iff, "pc_plus_instruction_length = address_of_instruction + instruction.length")
-            and has(iff, "control_unit_signals = instruction.control_unit_signals()"), "IF|plumbing", iff.loc(),
-            "IF no longer latches the fetch address, pc+length and the class's control signals")
+    datapath_rule(ctx, "R02.mux")
+    r = ctx.rule("R02.mux", "stage datapath")
     # every write_back that stores wraps to 32 bit
     n = 0
     for c in m.subclasses(m.cls("RiscvInstruction")):
@@ -219,7 +157,7 @@ def mux_rule(ctx: Ctx) -> None:
                         "registers[write_register]")
     if n < 4:
         raise AnalysisError(f"R02.mux: only {n} storing write_back definitions found (4 confirmed by hand)")
-    r.floor(16)
+    r.floor(64)
 
 
 def conf_rule(ctx: Ctx) -> None:
